@@ -12,7 +12,7 @@
 (***************************************************************************)
 EXTENDS Integers, Sequences, FiniteSets, TLC
 
-OptNames == <<"doc", "xref", "objstm", "filter", "length", "size", "split", "depth",
+OptNames == <<"doc", "xref", "objstm", "filter", "length", "size", "split", "cut", "depth",
               "mediaAt", "resAt", "revs", "numbering", "order", "eol", "count">>
 
 \* domain of option k given the choices made so far (validity constraints inline)
@@ -25,6 +25,9 @@ Dom(k, L) ==
       [] k = "length"    -> {"direct", "refBefore", "refAfter"}
       [] k = "size"      -> {"small", "big", "huge"}
       [] k = "split"     -> 1..3
+      \* the content of a page may be divided at any token boundary (7.8.2): between operations, or between an
+      \* operand and its operator
+      [] k = "cut"       -> IF L["split"] > 1 THEN {"ops", "tokens"} ELSE {"ops"}
       [] k = "depth"     -> 1..3
       \* level 0 = the leaf, 1 = its parent, 2 = its grandparent
       [] k = "mediaAt"   -> 0..(IF L["depth"] >= 2 THEN 2 ELSE 1)
